@@ -9,15 +9,18 @@ ROOT = {"dir": "/repo", "pattern": "./vgirpc"}
 CLAIMED = {
     "C34": dict(
         text="Proof, for all inputs and table sizes, of function contracts on the real allocator code "
-             "(numAllocs, readAllocs, writeAllocs, allocateLocked, canFitLocked, freeAtLocked): the allocation "
+             "(numAllocs, readAllocs, writeAllocs, allocateLocked, canFitLocked, freeAtLocked, and the public FreeOffset end to end): the allocation "
              "table stays in bounds, sorted and pairwise disjoint under every operation, allocation is first-fit, "
              "fails only when no gap fits and then changes nothing, free removes exactly the named entry; frames "
              "prove nothing outside the header entries is written.",
         note="Trusted: govc's SSA->SMT translation, go/ssa, the SMT solvers, the byte-level definitions of "
              "encoding/binary little-endian accessors (trusted/stdlib.spec), len(s.data)==s.size (established by mmap "
-             "in ShmCreate/ShmAttach, outside the subset), mutex atomicity for concurrent use. Partial correctness.",
+             "in ShmCreate/ShmAttach, outside the subset), mutex atomicity for concurrent use. The table invariant is ASSUMED at the entry "
+             "of the boundary operations (FreeOffset, allocateLocked, canFitLocked): AllocateAndWrite / allocateAndWriteSerialized run "
+             "arrow-go's IPC encoder and a caller-supplied callback before the locked helpers and carry no frame contract, so they and "
+             "FreeOffset's callers are listed in the evidence as unchecked callers. Partial correctness.",
         technique="contract-based deductive verification: weakest-precondition VCs over go/ssa, discharged by z3/cvc5",
-        residual=["cross-process visibility of the mapping", "initializeHeader/validateHeader/Reset/FreeOffset wrappers (added later in this file if listed under functions_under_contract)"],
+        residual=["cross-process visibility of the mapping", "initializeHeader/validateHeader/Reset and the arrow-facing part of AllocateAndWrite/allocateAndWriteSerialized (unchecked callers of the boundary helpers)"],
         assumed=["encoding/binary little-endian byte semantics", "len(s.data) == s.size (mmap)"],
     ),
 }
@@ -66,8 +69,8 @@ claim("C02", "Proof over every path of serveStream that a stream call answered w
       "ipc.NewReader/Reader.Next ghost contracts (inputTaken, exhausted) are assumed.", ["serveOne/serveUnary request-response counting and ordering", "Unix/TCP listeners", "client cancel timing"])
 claim("C03", "Proof that deserializeParams and resolveColumn never index an Arrow column or batch out of range for any client-supplied batch (row 0 is read only after the row count was checked; column indices come from resolveColumn's proved range).",
       "arrow-go observers are functions of immutable objects and element accessors require an in-range index (trusted/arrow.spec); setFieldFromArrow's own body (reflect type switch) is outside: only its precondition is used.", ["panic-freedom of the whole dispatch path (serveOne, HTTP handlers) beyond these functions and handleStreamExchange's guarded state assertions (C14)", "panics inside Arrow/zstd/gob", "every-HTTP-request-gets-a-response as a whole-server statement"])
-claim("C14", "Proof that handleStreamExchange hands the authenticated cursor's own state and call id to the continuation kind its route's method declares, with no unguarded dynamic-type assertion; the obligations that the token was minted by the same method fail because tokens carry no method, and are recorded as a known finding.",
-      "", ["method binding itself (known finding)", "handleStreamInit minting side"])
+claim("C14", "Proof that handleStreamExchange hands the authenticated cursor's own state and call id to the continuation kind its route's method declares (producer continuation only under a producer or dynamic route, exchange continuation never under a producer route; methodInfo.Type is declared immutable and that is checked over the package on every run), with no unguarded dynamic-type assertion; the obligations that the token was minted by the same method fail because tokens carry no method, and are recorded as a known finding.",
+      "", ["method binding itself (known finding)", "handleStreamInit minting side", "unary routes: the exchange continuation is not excluded under a route registered as unary"])
 claim("C28", "BOUNDED stand-in for the round trip (exhaustive run of the real buildWWWAuthenticate/Parse* over 285,610 metadata values: ids/secrets of length <= 2 over {a,_,-}, flag, 5 adversarial URLs) plus a PROOF that parseQuotedParam never slices out of range and that its scan terminates, for all header and parameter strings.",
       "the bounded run is not a proof and is not counted in obligations/discharged.", ["round trip beyond the stated bound"],
       bounded=[{"test": "c28_wwwauth_roundtrip_test.go", "bound": "optional ids/secrets in all strings of length <= 2 over {a,_,-} (13 values each, 13^4), flag in {false,true}, 5 adversarial metadata URLs: 285,610 cases"}],
